@@ -7,7 +7,8 @@
 EXTENDS MonCommon
 
 MonInit == [ sid |-> "", sent |-> <<>>, reads |-> <<>>, metaSent |-> <<>>, metaReads |-> <<>>, metaAcks |-> <<>>,
-             faults |-> 0, readers |-> {}, sendFail |-> 0, quiesced |-> FALSE, srcs |-> {}, metaWaits |-> <<>>, lastMetaI |-> 0 ]
+             faults |-> 0, readers |-> {}, sendFail |-> 0, quiesced |-> FALSE, srcs |-> {}, metaWaits |-> <<>>, lastMetaI |-> 0,
+             readWaits |-> <<>>, lastSendI |-> 0 ]
 MonReset(e) == MonInit
 
 Norm(gs) == [k \in 1..Len(gs) |-> <<gs[k].id, gs[k].pts>>]
@@ -16,8 +17,11 @@ MonStep(m, e) ==
     CASE e.ev = "ApiRet" /\ e.op = "OpenDownstream" /\ m.sid = "" /\ e.err = "" -> [m EXCEPT !.sid = e.sid]
       [] e.ev = "BSendChunk" /\ e.sid = m.sid ->
             [m EXCEPT !.sent = Append(@, [seq |-> e.seq, up |-> e.up, bogus |-> (e.upF = "alias" /\ e.upAl >= 90) \/ (\E k \in 1..Len(e.groups) : e.groups[k].f = "al" /\ e.groups[k].al >= 90),
-                                           g |-> Norm(e.groups), i |-> e.i])]
+                                           g |-> Norm(e.groups), i |-> e.i]),
+                      !.lastSendI = e.i]
       [] e.ev = "BSendFail" -> [m EXCEPT !.sendFail = @ + 1]
+      \* a ReadDataPoints that waited (at least 200 ms) and came back empty-handed
+      [] e.ev = "ApiRet" /\ e.op = "Read" /\ e.sid = m.sid /\ e.err = "ctx" /\ e.boundMs >= 200 -> [m EXCEPT !.readWaits = Append(@, e.ci)]
       [] e.ev = "ApiRet" /\ e.op = "Read" /\ e.sid = m.sid /\ e.err # "ctx" /\ e.err # "streamClosed" ->
             [m EXCEPT !.reads = Append(@, [ok |-> e.err = "", seq |-> e.seq, up |-> e.up, upSession |-> e.upSession, upNode |-> e.upNode,
                                             g |-> Norm(e.groups), i |-> e.i, g0 |-> e.g]),
@@ -56,13 +60,16 @@ MetaWrong(m) == \E src \in { x.src : x \in RangeS(m.metaSent) } \cup { x.src : x
 \* an item sent for a subscribed source node was never returned although the consumer waited for it after everything had been sent
 MetaLost(m) == /\ \E w \in RangeS(m.metaWaits) : w > m.lastMetaI
                /\ \E src \in m.srcs : Len(MetaOf(m.metaReads, src)) < Len(MetaOf(m.metaSent, src))
+\* a chunk that was sent is never returned although a read waited for it after everything had been sent
+ChunkLost(m) == /\ Len(m.sent) <= 1000 /\ Len(m.reads) < Len(m.sent)
+                /\ \E w \in RangeS(m.readWaits) : w > m.lastSendI
 MetaAckWrong(m) == m.quiesced /\ (\/ Len(m.metaAcks) # Len(m.metaReads)
                                   \/ \E r \in RangeS(m.metaAcks) : ~\E x \in RangeS(m.metaSent) : x.rid = r)
 
 Clause(name, b) == IF b THEN {name} ELSE {}
 MonVerdict(m) == IF ~Premise(m) THEN Clause("ErrorWithChunk", ErrorWithChunk(m))
                  ELSE Clause("OrderOrContentWrong", OrderWrong(m)) \cup Clause("MultiReaderWrong", MultiWrong(m))
-                      \cup Clause("ErrorWithChunk", ErrorWithChunk(m)) \cup Clause("MetaWrong", MetaWrong(m)) \cup Clause("MetaAckWrong", MetaAckWrong(m)) \cup Clause("MetaLost", MetaLost(m))
+                      \cup Clause("ErrorWithChunk", ErrorWithChunk(m)) \cup Clause("MetaWrong", MetaWrong(m)) \cup Clause("MetaAckWrong", MetaAckWrong(m)) \cup Clause("MetaLost", MetaLost(m)) \cup Clause("ChunkLost", ChunkLost(m))
 MonStats(m) == [ premise |-> IF Premise(m) THEN 1 ELSE 0, sent |-> Len(m.sent), reads |-> Len(m.reads),
                  okReads |-> Cardinality({ k \in 1..Len(m.reads) : m.reads[k].ok }),
                  errReads |-> Cardinality({ k \in 1..Len(m.reads) : ~m.reads[k].ok }),
